@@ -629,15 +629,14 @@ impl Hypercore {
     /// been stored.
     #[instrument(err, skip_all)]
     pub async fn make_read_only(&mut self) -> Result<bool, HypercoreError> {
-        if self.key_pair.secret.is_some() {
-            self.key_pair.secret = None;
-            self.header.key_pair.secret = None;
-            // Need to flush clearing traces to make sure both oplog slots are cleared
-            self.flush_bitfield_and_tree_and_oplog(true).await?;
-            Ok(true)
-        } else {
-            Ok(false)
-        }
+        let was_writable = self.key_pair.secret.is_some();
+        self.key_pair.secret = None;
+        self.header.key_pair.secret = None;
+        // Need to flush clearing traces to make sure both oplog slots are cleared. This is done
+        // also when the core is already read-only: if an earlier call was interrupted after its
+        // first header write, the other header slot still holds the secret key.
+        self.flush_bitfield_and_tree_and_oplog(true).await?;
+        Ok(was_writable)
     }
 
     async fn byte_range(
